@@ -183,3 +183,141 @@ func c07wire(stats map[string]int) {
 		}
 	}
 }
+
+// c07wireShapes covers two exclusion shapes the collStr resource does not have: collRO declares the whole record-typed
+// field `nested` read-only (so a nested patch INTO it touches a read-only field), collCO declares create-only fields
+// and no read-only field at all.
+func c07wireShapes(stats map[string]int) {
+	for _, name := range []string{"collRO", "collCO"} {
+		info, ok := resources[name]
+		if !ok {
+			violation("C07/wire/no-such-resource/"+name, "generated bindings lack resource "+name, nil)
+			continue
+		}
+		invoked := 0
+		mock := reflect.New(info.mock)
+		retGen := &gen{text: "x", n: 500}
+		for i := 0; i < info.mock.NumField(); i++ {
+			ft := info.mock.Field(i).Type
+			mock.Elem().Field(i).Set(reflect.MakeFunc(ft, func(args []reflect.Value) []reflect.Value {
+				invoked++
+				rets := make([]reflect.Value, ft.NumOut())
+				for o := 0; o < ft.NumOut(); o++ {
+					if ft.Out(o).Name() == "error" {
+						rets[o] = reflect.Zero(ft.Out(o))
+					} else {
+						rets[o] = scripted(retGen, ft.Out(o), args[1:])
+					}
+				}
+				return rets
+			}))
+		}
+		server := restli.NewServer()
+		info.register(server, mock.Interface())
+		rec := &wireRec{}
+		bu, _ := url.Parse("http://host.example")
+		rc := &restli.Client{Client: &http.Client{Transport: &transport{h: server.Handler(), rec: rec}}, HostnameResolver: &restli.SimpleHostnameResolver{Hostname: bu}}
+		client := reflect.ValueOf(info.newClient(rc))
+		full := &gen{text: "x", noExcl: false}
+		excluded := map[string]string{"collRO": "nested", "collCO": "created"}[name]
+		// client: update must not transmit the excluded field, and must still reach the resource
+		for _, mname := range []string{"Update", "BatchUpdate"} {
+			m := client.MethodByName(mname)
+			if !m.IsValid() {
+				continue
+			}
+			var args []reflect.Value
+			for i := 0; i < m.Type().NumIn(); i++ {
+				args = append(args, full.value(m.Type().In(i), ""))
+			}
+			*rec = wireRec{}
+			before := invoked
+			rets := m.Call(args)
+			stats["c07_client_calls"]++
+			cs := map[string]any{"resource": name, "method": mname, "request_body": rec.body}
+			if strings.Contains(rec.body, `"`+excluded+`"`) {
+				violation("C07/wire/client-transmits-excluded-field/"+name+"."+mname, fmt.Sprintf("%s.%s transmitted %q: %s", name, mname, excluded, rec.body), cs)
+			}
+			if e := rets[len(rets)-1]; !e.IsNil() || invoked != before+1 {
+				violation("C07/wire/client-call-with-excluded-fields-failed/"+name+"."+mname, fmt.Sprintf("the call did not reach the resource (error %v)", rets[len(rets)-1]), cs)
+			}
+		}
+		// client: partial updates touching the excluded field are refused before anything is sent
+		pu := client.MethodByName("PartialUpdate")
+		puType := pu.Type().In(1)
+		touches := map[string][]string{"collRO": {"set:Nested", "delete:Nested", "nested-set:A", "nested-delete:B"}, "collCO": {"set:Created", "delete:Created"}}[name]
+		for _, touch := range append(touches, "clean") {
+			p := reflect.New(puType.Elem())
+			kind, field, _ := strings.Cut(touch, ":")
+			switch kind {
+			case "set":
+				f := p.Elem().FieldByName("Set_Fields").FieldByName(field)
+				f.Set(full.value(f.Type(), ""))
+			case "delete":
+				p.Elem().FieldByName("Delete_Fields").FieldByName(field).SetBool(true)
+			case "nested-set":
+				n := p.Elem().FieldByName("Nested")
+				n.Set(reflect.New(n.Type().Elem()))
+				f := n.Elem().FieldByName("Set_Fields").FieldByName(field)
+				f.Set(reflect.New(f.Type().Elem()))
+			case "nested-delete":
+				n := p.Elem().FieldByName("Nested")
+				n.Set(reflect.New(n.Type().Elem()))
+				n.Elem().FieldByName("Delete_Fields").FieldByName(field).SetBool(true)
+			case "clean":
+				f := p.Elem().FieldByName("Set_Fields").FieldByName("Name")
+				f.Set(reflect.New(f.Type().Elem()))
+			}
+			*rec = wireRec{}
+			before := invoked
+			rets := pu.Call([]reflect.Value{full.value(pu.Type().In(0), ""), p})
+			stats["c07_client_calls"]++
+			failed, sent := !rets[0].IsNil(), rec.verb != ""
+			cs := map[string]any{"resource": name, "touch": touch, "sent": sent, "error": fmt.Sprint(rets[0]), "request_body": rec.body}
+			if touch != "clean" && (!failed || sent || invoked != before) {
+				violation("C07/wire/client-partial-update-not-refused/"+name+"/"+touch, fmt.Sprintf("a partial update touching the excluded field %q (%s): failed=%v, request sent=%v", excluded, touch, failed, sent), cs)
+			}
+			if touch == "clean" && (failed || invoked != before+1) {
+				violation("C07/wire/client-partial-update-wrongly-refused/"+name, fmt.Sprint(rets[0]), cs)
+			}
+		}
+		// server: bodies carrying the excluded field are answered 400 without invoking the resource
+		h := server.Handler()
+		val := map[string]string{"collRO": `{"a":1}`, "collCO": `5`}[name]
+		probes := []struct {
+			pname, verb, target, method, body string
+			offending                         bool
+		}{
+			{"update", "PUT", "/" + name + "/1", "update", `{"name":"n","` + excluded + `":` + val + `}`, true},
+			{"update-clean", "PUT", "/" + name + "/1", "update", `{"name":"n"}`, false},
+			{"partial_update/set", "POST", "/" + name + "/1", "partial_update", `{"patch":{"$set":{"` + excluded + `":` + val + `}}}`, true},
+			{"partial_update/delete", "POST", "/" + name + "/1", "partial_update", `{"patch":{"$delete":["` + excluded + `"]}}`, true},
+			{"partial_update/clean", "POST", "/" + name + "/1", "partial_update", `{"patch":{"$set":{"name":"n"}}}`, false},
+			{"create", "POST", "/" + name, "create", `{"name":"n","` + excluded + `":` + val + `}`, name == "collRO"},
+		}
+		if name == "collRO" {
+			probes = append(probes, struct {
+				pname, verb, target, method, body string
+				offending                         bool
+			}{"partial_update/nested-patch", "POST", "/" + name + "/1", "partial_update", `{"patch":{"nested":{"$set":{"a":2}}}}`, true})
+		}
+		for _, p := range probes {
+			before := invoked
+			*rec = wireRec{}
+			req, _ := http.NewRequest(p.verb, "http://host.example"+p.target, strings.NewReader(p.body))
+			req.Header.Set("X-RestLi-Method", p.method)
+			req.Header.Set("X-RestLi-Protocol-Version", "2.0.0")
+			req.Header.Set("Content-Type", "application/json")
+			res, _ := (&transport{h: h, rec: rec}).RoundTrip(req)
+			stats["c07_server_probes"]++
+			ran := invoked != before
+			cs := map[string]any{"resource": name, "probe": p.pname, "body": p.body, "status": res.StatusCode, "resource_invoked": ran}
+			if p.offending && (res.StatusCode != 400 || ran) {
+				violation("C07/wire/server-accepts-excluded-field/"+name+"/"+p.pname, fmt.Sprintf("%s %s with body %s: status %d, resource invoked: %v (expected 400, not invoked)", p.verb, p.target, p.body, res.StatusCode, ran), cs)
+			}
+			if !p.offending && (res.StatusCode >= 400 || !ran) {
+				violation("C07/wire/server-rejects-clean-body/"+name+"/"+p.pname, fmt.Sprintf("%s %s with body %s: status %d, resource invoked: %v", p.verb, p.target, p.body, res.StatusCode, ran), cs)
+			}
+		}
+	}
+}
